@@ -77,7 +77,7 @@ Proof.
   { intros a body s'. unfold do_with_context. destruct (dwc_enter g a (tls s')) as [[t x] fine].
     destruct fine; [cbn; lia|]. destruct (run_dact g x (with_tls t s')); cbn; lia. }
   rewrite psize_unfold.
-  destruct p as [lbl try body|lbl ce body|lbl le body|lbl body|lbl body|body|body|k v|k|l| |lbl le|n v|lbl| ];
+  destruct p as [lbl try body|lbl ce body|lbl le body|lbl body|lbl body|body|body|k v|k|l| |lbl le|n v|lbl| | ];
     cbn [exec_stmt].
   - destruct (alloc_ctx _ s) as [ra s1]. destruct (dwc_enter g ra (tls s1)) as [[t1 x1] fine1].
     destruct fine1; cbn [negb]; [|destruct (run_dact g x1 (with_tls t1 s1)); cbn; lia].
@@ -104,7 +104,17 @@ Proof.
     destruct (set_entry n v ld); cbn; lia.
   - cbn. lia.
   - cbn. lia.
+  - cbn. lia.
 Qed.
+
+Lemma notry_size K : ksize (notry K) <= ksize K.
+Proof.
+  induction K as [|f K IH]; cbn [notry]; [lia|].
+  destruct f as [env ps|xs| |cfo|cl]; cbn [ksize fsize]; lia.
+Qed.
+
+Lemma exit_stack_size p K : ksize (exit_stack p K) <= ksize K.
+Proof. unfold exit_stack. destruct (is_goexit p); [apply notry_size|lia]. Qed.
 
 (* a step of a goroutine that has not ended makes the work strictly smaller (the goroutine it starts included) *)
 Lemma step_g_size g s st :
@@ -117,8 +127,9 @@ Proof.
     + pose proof (resume_size (g_panic st) K). destruct (resume (g_panic st) K) as [pn K'].
       cbn [fst snd g_stack ksize fsize bsize] in *. lia.
     + pose proof (exec_stmt_size g env p s) as Hs. set (r := exec_stmt g env p s) in *.
-      pose proof (resume_size (r_panic r) (r_push r ++ KSeq env ps :: K)) as Hr. rewrite ksize_app in Hr.
-      destruct (resume (r_panic r) (r_push r ++ KSeq env ps :: K)) as [pn K'].
+      pose proof (resume_size (r_panic r) (r_push r ++ KSeq env ps :: exit_stack p K)) as Hr. rewrite ksize_app in Hr.
+      pose proof (exit_stack_size p K) as Hx.
+      destruct (resume (r_panic r) (r_push r ++ KSeq env ps :: exit_stack p K)) as [pn K'].
       unfold spawn_size in Hs. cbn [fst snd g_stack ksize fsize bsize] in *.
       destruct (r_spawn r); cbn [g_stack]; lia.
   - destruct (run_dacts g xs s) as [s1 evs].
